@@ -33,6 +33,8 @@ def num(x):
     if isinstance(x, SCoded):
         return x.code
     if isinstance(x, SEnum):
+        if getattr(x, 'code_hint', None) is not None:
+            return x.code_hint
         if issubclass(x.cls, int):
             return ops.as_int(x)
         return V.enum_table(x.cls, x.idx, lambda m: m.value.code)
@@ -44,6 +46,8 @@ def num(x):
         return z3.IntVal(int(x))
     if z3.is_expr(x):
         return x
+    if isinstance(x, SObj) and 'code' in x.f:          # a TlsInvalidType* fallback item: its wire code
+        return num(x.f['code'])
     return ops.as_int(x)
 
 
@@ -127,6 +131,38 @@ def flags_value(fl, shift=0):
     for b, conds in bits.items():
         total = total + z3.If(z3.Or(*conds), z3.IntVal(2 ** b), z3.IntVal(0))
     return total
+
+
+def lift_deep(o, _seen=None):
+    """view of an object tree in which native attrs instances (default field values) are SObj like the symbolic ones"""
+    import attr
+    from cryptoparser.common.base import ArrayBase
+    _seen = _seen if _seen is not None else {}
+    if id(o) in _seen:
+        return _seen[id(o)]
+    if isinstance(o, SObj):
+        n = SObj(o.cls)
+        _seen[id(o)] = n
+        for k, v in o.f.items():
+            n.f[k] = lift_deep(v, _seen)
+        return n
+    if isinstance(o, ArrayBase):
+        n = SObj(type(o), dict(_items=[lift_deep(x, _seen) for x in o._items], _items_size=o._items_size, param=o.param))
+        _seen[id(o)] = n
+        return n
+    if attr.has(type(o)) and not isinstance(o, enum.Enum):
+        n = SObj(type(o))
+        _seen[id(o)] = n
+        for a in attr.fields(type(o)):
+            n.f[a.name] = lift_deep(getattr(o, a.name), _seen)
+        return n
+    if isinstance(o, list):
+        return [lift_deep(x, _seen) for x in o]
+    return o
+
+
+def call_spec(name, obj):
+    return SPECS[name](lift_deep(obj))
 
 
 SPECS = {}          # class name -> spec function(obj) -> byte sequence
